@@ -106,3 +106,38 @@ func surfaceRef(lai, eta, par, temp, tmin, tmax, t00 float64) float64 {
 	}
 	return (tmin + tmax) / 2
 }
+
+// configuredTBase: the lower-boundary temperature the CONFIGURATION asks for — AnnualAverageTemperature of the batch
+// line, else of the project's config.yml, else the default 8.7 (config.go:120, 218); read independently of hermes
+func configuredTBase(work string, args []string) (float64, string) {
+	project := ""
+	for _, a := range args {
+		if strings.HasPrefix(a, "project=") {
+			project = a[len("project="):]
+		}
+	}
+	for _, a := range args {
+		if strings.HasPrefix(a, "AnnualAverageTemperature=") {
+			if v, err := strconv.ParseFloat(a[len("AnnualAverageTemperature="):], 64); err == nil {
+				return v, "batch line"
+			}
+		}
+	}
+	if f, err := os.Open(filepath.Join(work, "project", project, "config.yml")); err == nil {
+		defer f.Close()
+		sc := bufio.NewScanner(f)
+		for sc.Scan() {
+			l := sc.Text()
+			if strings.HasPrefix(l, "AnnualAverageTemperature:") {
+				t := strings.TrimSpace(l[len("AnnualAverageTemperature:"):])
+				if i := strings.Index(t, "#"); i >= 0 {
+					t = strings.TrimSpace(t[:i])
+				}
+				if v, err := strconv.ParseFloat(strings.Trim(t, "\"'"), 64); err == nil {
+					return v, "config.yml"
+				}
+			}
+		}
+	}
+	return 8.7, "default"
+}
